@@ -18,7 +18,7 @@ import (
 
 var (
 	nsFamC02 = []string{"nodesim-applied-entry-differs", "nodesim-apply-order", "nodesim-two-leaders-one-term",
-		"nodesim-completed-not-applied", "nodesim-foreign-result", "nodesim-panic"}
+		"nodesim-completed-not-applied", "nodesim-foreign-result", "nodesim-membership-differs", "nodesim-panic"}
 	nsFamC07 = []string{"nodesim-campaign-with-unapplied-config-change", "nodesim-membership-differs",
 		"nodesim-applied-entry-differs", "nodesim-two-leaders-one-term", "nodesim-panic"}
 	nsFamC06 = []string{"nodesim-stale-read", "nodesim-panic"}
